@@ -183,7 +183,7 @@ static void print_all(void)
     all[0] = 0;
     parsec_hash_table_for_all(&ht, collect_cb, all);
     printf("[");
-    for(int i = 1; i <= all[0] && i < MAXI + 8; i++) printf("%s%d", i > 1 ? " " : "", all[i]);
+    for(int i = 1; i <= all[0] && i < MAXI + 8; i++) printf("%s%" PRIu64 ":%d", i > 1 ? " " : "", all[i] > 0 ? (uint64_t)items[all[i]].hi.key : 0, all[i]);
     printf("]");
 }
 
